@@ -91,6 +91,16 @@ def plan(tier):
             src.append(shim(d, sname, [(s, 'a')], 'return cnl::_impl::to_rep(cnl::convert<%s, %s>{}(cnl::_impl::from_rep<%s>(a)));' % (tg, B, A)))
             jobs.append(Job('%s.S2S.%s' % (PROP, tag), kname, P, s2s_contract(mode, S, ei, D, eo, 1), via=sname,
                             shim=sname, shim_types=[s], oracle=s2s_oracle(mode, S, ei, D, eo), prop=PROP, timeout=300, layer=1))
+    # finer scaled_integer -> built-in integer under nearest_rounding_tag (the other tags do not provide this form): same contract with destination exponent 0
+    PB = r'^cnl::custom_operator<cnl::_impl::convert_op, cnl::op_value<cnl::_impl::wrapper<[a-z_0-9 ]+, cnl::power<-?\d+, 2> >, cnl::power<0, 2> >, cnl::op_value<[a-z_0-9 ]+, cnl::nearest_rounding_tag> >::operator\(\)\('
+    for (s_, ei, d) in [('i16', -4, 'i32'), ('i8', -3, 'i32')] + ([('u16', -3, 'i32'), ('i16', -9, 'i64')] if thorough else []):      # 32-bit sources hit the registered bias-overflow class (C09-s2s-bias-*): not re-planned here
+        S, D = T(s_), T(d)
+        A = 'cnl::scaled_integer<%s, cnl::power<%d>>' % (cxx(s_), ei)
+        tag = 'nearest_%s_%s_to_builtin_%s' % (s_, str(ei).replace('-', 'm'), d)
+        sname = 'vp_' + tag
+        src.append(shim(d, sname, [(s_, 'a')], 'return cnl::convert<cnl::nearest_rounding_tag, %s, cnl::power<>>{}(cnl::_impl::from_rep<%s>(a));' % (cxx(d), A)))
+        jobs.append(Job('%s.S2B.%s' % (PROP, tag), kname, PB, s2s_contract('nearest', S, ei, D, 0, 1), via=sname,
+                        shim=sname, shim_types=[s_], oracle=s2s_oracle('nearest', S, ei, D, 0), prop=PROP, timeout=300, layer=1))
     # float -> integer under tie_to_pos_inf / neg_inf (rounding/convert_operator.h); nearest uses long double: refused
     PF = r'^cnl::custom_operator<cnl::_impl::convert_op, cnl::op_value<(float|double), cnl::_impl::native_tag>, cnl::op_value<[a-z_0-9 ]+, cnl::\w+_rounding_tag> >::operator\(\)\('
     for mode, tg in (('tie_pos', TAGS['tie_pos']), ('neg_inf', TAGS['neg_inf'])):
